@@ -50,7 +50,7 @@ func (v Val) Canon() any {
 		return math.Float32frombits(uint32(v.F))
 	case "float8":
 		return math.Float64frombits(v.F)
-	case "text", "varchar", "name", "json", "jsonb", "bpchar":
+	case "text", "varchar", "name", "json", "jsonb", "bpchar", "custom":
 		return v.S
 	case "bytea":
 		if v.Y == nil {
@@ -215,7 +215,7 @@ func (v Val) Go() any {
 			return pgtype.Float8{Float64: x, Valid: true}
 		}
 		return x
-	case "text", "varchar", "name", "json", "jsonb", "bpchar":
+	case "text", "varchar", "name", "json", "jsonb", "bpchar", "custom":
 		x := c.(string)
 		switch v.Rep {
 		case "ptr":
